@@ -135,6 +135,10 @@ def pp_term(t, ind):
         return [f"{sp}Except.error {t[1]}"]
     if k == "matchopt":
         return [f"{sp}match {t[1]} with", f"{sp}| none =>"] + pp_term(t[2], ind + 2) + [f"{sp}| some {t[3]} =>"] + pp_term(t[4], ind + 2)
+    if k == "matchout":
+        # ("matchout", scrutinee, retvar, ret_term, done_pat, done_term)
+        return [f"{sp}match {t[1]} with", f"{sp}| Out.ret {t[2]} =>"] + pp_term(t[3], ind + 2) + \
+            [f"{sp}| Out.done {t[4]} =>"] + pp_term(t[5], ind + 2)
     raise AssertionError(k)
 
 
@@ -143,9 +147,10 @@ def pp_block(t, ind, close):
     sp = " " * ind
     if t[0] == "if":
         lines = [f"{sp}if {t[1]} then do"] + pp_term(t[2], ind + 2) + [f"{sp}else do"] + pp_term(t[3], ind + 2)
-    elif t[0] == "for":
+    elif t[0] in ("for", "forE"):
         _, xs, init, lampat, x, body = t
-        lines = [f"{sp}pyFor {xs} {init} (fun {lampat} {x} => do"] + pp_term(body, ind + 4)
+        fn = "pyFor" if t[0] == "for" else "pyForE"
+        lines = [f"{sp}{fn} {xs} {init} (fun {lampat} {x} => do"] + pp_term(body, ind + 4)
         lines[-1] += ")"
     else:
         lines = [f"{sp}do"] + pp_term(t, ind + 2)
@@ -163,7 +168,9 @@ def term_size(t):
         return 1 + term_size(t[2]) + term_size(t[3])
     if k == "matchopt":
         return 1 + term_size(t[2]) + term_size(t[4])
-    if k == "for":
+    if k == "matchout":
+        return 1 + term_size(t[3]) + term_size(t[5])
+    if k in ("for", "forE"):
         return 1 + term_size(t[5])
     return 1
 
@@ -432,6 +439,7 @@ class FnTranslator:
         for nm, fields in module.config.get("__tuples__", {}).items():
             NT_FIELDS[nm] = list(fields)
         self.optional_ret = False
+        self.loop_stack = []          # innermost last: {"next": env -> term, "brk": env -> term}
         self.opaque_params = []       # (lean name, shape, description)
         self.mut_params = []          # python names of list params that are mutated
 
@@ -548,6 +556,15 @@ class FnTranslator:
             return B
         if s in ("List[int]", "list[int]", "Shape", "List"):
             return L(N)
+        for nm in NT_FIELDS:
+            if s == nm:
+                return NT(nm)
+            if s in (f"List[Optional[{nm}]]", f"List[{nm} | None]"):
+                return L(O(NT(nm)))
+            if s in (f"List[{nm}]",):
+                return L(NT(nm))
+            if s in (f"Optional[{nm}]",):
+                return O(NT(nm))
         return N
 
     def is_mutated(self, pn, stmts):
@@ -587,6 +604,10 @@ class FnTranslator:
             self.ret_shape = sh
         elif self.ret_shape != sh:
             self.fail(node or self.node, f"return values of different shapes: {shape_str(self.ret_shape)} and {shape_str(sh)}")
+        if self.loop_stack:
+            if self.mut_params:
+                self.fail(node or self.node, "`return` inside a loop of a function that mutates a list parameter")
+            return ("pure", f"(Step.ret {expr})")
         if self.mut_params:
             ms = [env.d[p][0] for p in self.mut_params]
             if sh == U:
@@ -606,6 +627,14 @@ class FnTranslator:
 
         if isinstance(st, ast.Pass):
             return rest(env)
+        if isinstance(st, ast.Continue):
+            if not self.loop_stack:
+                self.fail(st, "`continue` outside a loop")
+            return self.loop_stack[-1]["next"](env)
+        if isinstance(st, ast.Break):
+            if not self.loop_stack:
+                self.fail(st, "`break` outside a loop")
+            return self.loop_stack[-1]["brk"](env)
         if isinstance(st, ast.Expr):
             if isinstance(st.value, ast.Constant) and isinstance(st.value.value, str):
                 return rest(env)
@@ -837,19 +866,25 @@ class FnTranslator:
 
     @staticmethod
     def has_return(stmts):
-        for st in stmts:
-            for n in ast.walk(st):
-                if isinstance(n, ast.Return):
+        """a return somewhere inside, or a break / continue of the enclosing loop"""
+        def walk(ss, depth):
+            for st in ss:
+                if isinstance(st, ast.Return):
                     return True
-                if isinstance(n, ast.FunctionDef):
-                    pass
-        return False
+                if isinstance(st, (ast.Break, ast.Continue)) and depth == 0:
+                    return True
+                if isinstance(st, ast.If) and (walk(st.body, depth) or walk(st.orelse, depth)):
+                    return True
+                if isinstance(st, ast.For) and (walk(st.body, depth + 1) or walk(st.orelse, depth + 1)):
+                    return True
+            return False
+        return walk(stmts, 0)
 
     @staticmethod
     def always_exits(stmts):
-        """every path through the statements ends in return / raise"""
+        """every path through the statements ends in return / raise / break / continue"""
         for st in stmts:
-            if isinstance(st, (ast.Return, ast.Raise)):
+            if isinstance(st, (ast.Return, ast.Raise, ast.Break, ast.Continue)):
                 return True
             if isinstance(st, ast.If) and FnTranslator.always_exits(st.body) and FnTranslator.always_exits(st.orelse):
                 return True
@@ -878,6 +913,18 @@ class FnTranslator:
         return None
 
     def if_stmt(self, st, env, rest):
+        # `if x is not None and B: body` (no else)  ==  `if x is not None: if B: body`
+        if isinstance(st.test, ast.BoolOp) and isinstance(st.test.op, ast.And) and not st.orelse:
+            first = self.opt_test(st.test.values[0], env)
+            if first is not None and not first[1]:
+                restv = st.test.values[1:]
+                inner_test = restv[0] if len(restv) == 1 else ast.BoolOp(op=ast.And(), values=restv)
+                inner = ast.If(test=inner_test, body=st.body, orelse=[])
+                outer = ast.If(test=st.test.values[0], body=[inner], orelse=[])
+                ast.copy_location(inner, st)
+                ast.copy_location(outer, st)
+                ast.fix_missing_locations(outer)
+                return self.if_stmt(outer, env, rest)
         ot = self.opt_test(st.test, env)
         if ot is not None:
             nm, is_none = ot
@@ -948,14 +995,81 @@ class FnTranslator:
             return (k, t[1], self.subst_join(t[2], val), self.subst_join(t[3], val))
         if k == "matchopt":
             return (k, t[1], self.subst_join(t[2], val), t[3], self.subst_join(t[4], val))
+        if k == "matchout":
+            return (k, t[1], t[2], self.subst_join(t[3], val), t[4], self.subst_join(t[5], val))
         return t
+
+    @staticmethod
+    def has_exit(stmts):
+        """break / continue of this loop level, or a return anywhere inside"""
+        def walk(ss, depth):
+            for st in ss:
+                if isinstance(st, ast.Return):
+                    return True
+                if isinstance(st, (ast.Break, ast.Continue)) and depth == 0:
+                    return True
+                if isinstance(st, ast.If) and (walk(st.body, depth) or walk(st.orelse, depth)):
+                    return True
+                if isinstance(st, ast.For) and (walk(st.body, depth + 1) or walk(st.orelse, depth + 1)):
+                    return True
+            return False
+        return walk(stmts, 0)
+
+    def for_exit(self, st, env, rest):
+        """a loop whose body can `continue`, `break` or `return`"""
+        pre, xs = self.iterable(st.iter, env)
+        elem = xs[2][1]
+        names = self.assigned_names(st.body)
+        tnames = self.assigned_names([ast.Assign(targets=[st.target], value=ast.Constant(value=0))])
+        accs = [nm for nm in names if env.d.get(nm) is not None and nm not in tnames]
+        env_in = env.copy()
+        lam_names = []
+        for nm in accs:
+            ln = self.fresh(nm)
+            lam_names.append(ln)
+            env_in.d[nm] = (ln, env.d[nm][1])
+        x = self.fresh("x")
+        pre_b = []
+        self.bind_target(st.target, ("atom", x, elem), env_in, pre_b)
+
+        def tup(names_):
+            return "()" if not names_ else names_[0] if len(names_) == 1 else "(" + ", ".join(names_) + ")"
+
+        def state(e):
+            for nm in accs:
+                if e.d.get(nm) is None or e.d[nm][1] != env.d[nm][1]:
+                    self.fail(st, f"loop variable `{nm}` changes shape or may be unbound")
+            return tup([e.d[nm][0] for nm in accs])
+
+        self.loop_stack.append({"next": lambda e: ("pure", f"(Step.next {state(e)})"),
+                                "brk": lambda e: ("pure", f"(Step.brk {state(e)})")})
+        try:
+            body = self.wrap_pre(pre_b, self.block(st.body, 0, env_in, self.loop_stack[-1]["next"]))
+        finally:
+            self.loop_stack.pop()
+        env2 = env.copy()
+        for nm in names + tnames:
+            if nm not in accs:
+                env2.d[nm] = None
+        new = []
+        for nm in accs:
+            ln = self.fresh(nm)
+            new.append(ln)
+            env2.d[nm] = (ln, env.d[nm][1])
+        r = self.tmp()
+        rv = self.fresh("r")
+        init = tup([env.d[nm][0] for nm in accs])
+        blk = ("forE", xs[1], init, tup(lam_names) if accs else "_", x, body)
+        # an early `return v` of the body returns from the function (or from the enclosing loop body)
+        ret_t = ("pure", f"(Step.ret {rv})") if self.loop_stack else ("pure", rv)
+        after = ("matchout", r, rv, ret_t, tup(new) if accs else "_", rest(env2))
+        return self.wrap_pre(pre + [("letb", r, blk, None)], after)
 
     def for_stmt(self, st, env, rest):
         if st.orelse:
             self.fail(st, "for ... else")
-        for n in ast.walk(ast.Module(body=st.body, type_ignores=[])):
-            if isinstance(n, (ast.Break, ast.Continue, ast.Return)):
-                self.fail(n, f"`{type(n).__name__.lower()}` inside a for loop")
+        if self.has_exit(st.body):
+            return self.for_exit(st, env, rest)
         pre, xs = self.iterable(st.iter, env)
         elem = xs[2][1]
         names = self.assigned_names(st.body)
